@@ -33,6 +33,7 @@ REQUESTS = [
     "{ b { tags strict } nodes { id } }",
     "query Q($s: Boolean!) { num @skip(if: $s) color a @include(if: $s) { a } }",
     "{ two(a: 1, b: 2) num }",
+    "query Q($s: Boolean!) { alist { id name @include(if: $s) } }",
 ]
 SUSPEND_HOOKS = {"{ two(a: 1, b: 2) num }"}
 MAX_I = {"quick": 1, "thorough": 2}
@@ -174,6 +175,9 @@ def run_shard(item):
     text = REQUESTS[ri]
     text, located = doc.roundtrip(doc.parse(text))
     root = build_root(schema, "Query", 1)
+    a1, a2, a3 = (build_root(schema, "A", v, depth=1) for v in (5, 6, 7))
+    root = dict(root)
+    root["alist"] = [a1, a2]  # a homogeneous list: the items share one runtime type (and one collected sub-selection)
     varsets = [None]
     if located.operations[0].vars:
         varsets = [{"s": True}, {"s": False}]
